@@ -178,6 +178,14 @@ def one_history(col: Collector, rng, index: int):
                                   f"message #{i} ({r.clazz}) was last transmitted {(w.clock.ns - r.at) / 1e9:.0f} virtual s ago, is still unacknowledged, retries left {r.remaining}; "
                                   f"the sender's loop kept iterating but neither re-sent nor raised (plan {plan_class})", wit, index)
                     return
+            if plan_class.startswith("partition") and first_affected:
+                # frames of one direction have been dropped for far longer than the whole retry budget (both loops iterating
+                # fairly in virtual time): "the sender raises after a bounded number of retries" is refuted
+                side = "c2e" if plan_class in ("partition-c2e", "partition-acks") else "e2c"
+                affected = [t for (d, _i), t in first_affected.items() if (d == "c2x") == (side == "c2e")]
+                if affected and w.raised[side] is None and w.clock.ns - min(affected) > 3 * budget_ns:
+                    col.violation(f"partition-never-reported:{side}", f"{(w.clock.ns - min(affected)) / 1e9:.0f} virtual s after the first dropped transmission the sender is still retrying and has not raised", wit, index)
+                    return
             col.observe("history_not_quiescent_within_step_cap")
             col.not_reached("a history did not reach quiescence within 600 loop iterations")
             return
